@@ -568,7 +568,7 @@ func drvMacCmd(c *ctx) error {
 						defer wg.Done()
 						var prev lorawan.MACCommandPayload
 						prevRes := "?"
-						for it := 0; it < 20000; it++ {
+						for it := 0; it < 60000; it++ {
 							var p lorawan.MACCommandPayload
 							res, _ := observeFast(func() error {
 								if g%2 == 0 {
